@@ -202,6 +202,9 @@ class PeerConn(ActorHandler):
 
     def on_reset(self, end):
         self.was_reset = True
+        cb = getattr(self.peer, 'on_reset', None)
+        if cb is not None:
+            cb(self)
 
     def send(self, *messages):
         for m in messages:
